@@ -432,6 +432,50 @@ func runC07(c *fw.Ctx) {
 		c.Count("long_list_pairs")
 		c07Pair(c, r, a, b, desc)
 	})
+	// pairs that a comparison through some flattened form (joined strings, concatenated key/value text, folded keys)
+	// would confuse: the pieces differ, the flattened text is the same
+	seps := []string{"", ", ", "\",\"", "\":\"", "::", "\r\n", string(rune(0x2028)), string(rune(0xfffd)), string(rune(0x1f)) + string(rune(0x1f))}
+	for ch := 0; ch < 128; ch++ {
+		seps = append(seps, string(rune(ch)))
+	}
+	foldKeys := [][2]string{{"id", "ID"}, {"k", string(rune(0x212a))}, {"s", string(rune(0x17f))}, {"key", "key "}, {"key", " key"}, {"e" + string(rune(0x301)), string(rune(0xe9))},
+		{"a", "A"}, {"ss", string(rune(0xdf))}, {"i", string(rune(0x130))}, {"x", "x" + string(rune(0))}, {"1", "01"}, {"1", "1.0"}, {"true", "True"}}
+	c.Cases("flattening-collisions", len(seps)*4+len(foldKeys), true, func(i int, r *rng.R) {
+		var a, b *spec.Spec
+		var desc string
+		if i >= len(seps)*4 {
+			fk := foldKeys[i-len(seps)*4]
+			a = spec.ObjV(fk[0], spec.IntV(1), fk[1], spec.IntV(2))
+			b = spec.ObjV(fk[0], spec.IntV(2), fk[1], spec.IntV(1))
+			desc = fmt.Sprintf("values swapped between the look-alike keys %q and %q", fk[0], fk[1])
+		} else {
+			sp := seps[i/4]
+			u, v, w := "id", "7", "tag"
+			if r.Bool() {
+				u, v, w = c05Strs[r.Intn(len(c05Strs))], "m", c05Strs[r.Intn(len(c05Strs))]
+			}
+			switch i % 4 {
+			case 0:
+				a, b = spec.ListV(spec.StrV(u+sp+v), spec.StrV(w)), spec.ListV(spec.StrV(u), spec.StrV(v+sp+w))
+				desc = fmt.Sprintf("string lists with the element boundary moved across the separator %q", sp)
+			case 1:
+				a, b = spec.ObjV(u+sp+v, spec.StrV(w)), spec.ObjV(u, spec.StrV(v+sp+w))
+				desc = fmt.Sprintf("key / value boundary moved across the separator %q", sp)
+			case 2:
+				a, b = spec.ObjV("p"+sp+"q", spec.StrV("1"), "r", spec.StrV("2")), spec.ObjV("p", spec.StrV("1"), "q"+sp+"r", spec.StrV("2"))
+				desc = fmt.Sprintf("two keys with the boundary moved across the separator %q", sp)
+			default:
+				a = spec.ListV(spec.ListV(spec.StrV(u), spec.StrV(v)), spec.ListV(spec.StrV(w)), spec.StrV(sp))
+				b = spec.ListV(spec.ListV(spec.StrV(u)), spec.ListV(spec.StrV(v), spec.StrV(w)), spec.StrV(sp))
+				desc = "nested lists with the inner boundary moved"
+			}
+		}
+		if r.Chance(1, 3) {
+			a, b = spec.ListV(a, spec.IntV(0)), spec.ListV(b, spec.IntV(0))
+		}
+		c.Count("flattening_collision_pairs")
+		c07Pair(c, r, a, b, desc)
+	})
 	c.Cases("pairs", c.N(5000, 3000000), false, func(i int, r *rng.R) {
 		root := spec.List
 		if r.Bool() {
